@@ -30,8 +30,9 @@ type CCR struct {
 }
 
 type C07Case struct {
-	Bal  []int64 `json:"bal"` // initial balance per account
-	Reqs []CCR   `json:"reqs"`
+	BigRG bool    `json:"bigRG,omitempty"` // the accounts' rating groups are 2^31-1, 2^31, ... (Unsigned32 on the wire) instead of 1, 2, ...
+	Bal   []int64 `json:"bal"`             // initial balance per account
+	Reqs  []CCR   `json:"reqs"`
 }
 
 func genC07(t *rapid.T) C07Case {
@@ -40,6 +41,7 @@ func genC07(t *rapid.T) C07Case {
 	for i := 0; i < n; i++ {
 		c.Bal = append(c.Bal, rapid.SampledFrom([]int64{0, 1, 2, 100, 1 << 31, 1 << 32, 1 << 62, 999}).Draw(t, "bal"))
 	}
+	c.BigRG = rapid.IntRange(0, 3).Draw(t, "bigRG") == 0
 	m := rapid.IntRange(1, h.Scale(20, 30)).Draw(t, "nReq")
 	for i := 0; i < m; i++ {
 		r := CCR{Acct: rapid.SampledFrom([]int{0, 0, 0, 1, 1, 2, 3, -1, -2}).Draw(t, "acct")}
@@ -93,17 +95,21 @@ func judgeC07(c C07Case) *h.Verdict {
 	}
 	type acct struct {
 		supi string
-		rg   int32
+		rg   int64
 	}
 	var accts []acct
 	model := map[int]int64{}
 	for i, b := range c.Bal {
 		// accounts 0 and 2 belong to one subscriber (different rating groups), as do 1 and 3
-		a := acct{env.NewSupi(), int32(1 + i%3)}
+		a := acct{env.NewSupi(), int64(1 + i%3)}
+		if c.BigRG {
+			a.rg += 1<<31 - 2 // 2^31-1, 2^31, 2^31+1
+			v.Label("rating-group>=2^31")
+		}
 		if i >= 2 {
 			a = acct{accts[i-2].supi, accts[i-2].rg + 1}
 		}
-		env.SetAccount(a.supi, a.rg, b, "1")
+		env.SetAccount64(a.supi, a.rg, b, "1")
 		accts = append(accts, a)
 		model[i] = b
 	}
@@ -111,7 +117,7 @@ func judgeC07(c C07Case) *h.Verdict {
 	sawEq, sawGt, refundAfterExhaust := false, false, false
 	exhausted := map[int]bool{}
 	for step, r := range c.Reqs {
-		supi, rg := "", int32(1)
+		supi, rg := "", int64(1)
 		idx := r.Acct
 		switch {
 		case idx >= 0:
@@ -179,7 +185,7 @@ func judgeC07(c C07Case) *h.Verdict {
 		}
 		before := map[int]int64{}
 		for i, a := range accts {
-			before[i], _ = env.Quota(a.supi, a.rg)
+			before[i], _ = env.Quota64(a.supi, a.rg)
 		}
 		wait := 2 * time.Second
 		if idx < 0 {
@@ -197,7 +203,7 @@ func judgeC07(c C07Case) *h.Verdict {
 		if idx < 0 {
 			v.NT("unknown-account")
 			for i, a := range accts {
-				q, _ := env.Quota(a.supi, a.rg)
+				q, _ := env.Quota64(a.supi, a.rg)
 				if q != before[i] {
 					return v.Failf("unknown-account-changes-balance", "%s: balance of account %d changed from %d to %d", desc, i, before[i], q)
 				}
@@ -264,7 +270,7 @@ func judgeC07(c C07Case) *h.Verdict {
 			exact = false
 		}
 		for i, a := range accts {
-			q, err := env.Quota(a.supi, a.rg)
+			q, err := env.Quota64(a.supi, a.rg)
 			if err != nil {
 				return v.Failf("quota-unreadable", "%s: %v", desc, err)
 			}
